@@ -12,9 +12,28 @@ pub const ASSUMPTIONS: &[&str] = &[
 
 pub struct Comments;
 
-fn compare(driver: &str, input: &[String], kinds: &[&'static str], output_text: &str, source: &str) -> Outcome {
+fn compare(ctx: &mut Ctx, driver: &str, input: &[String], kinds: &[&'static str], output_text: &str, source: &str) -> Outcome {
     let out = fmt::lex_comments(output_text);
-    let inp: Vec<String> = input.iter().map(|c| c.trim_end().to_string()).collect();
+    let mut inp: Vec<String> = input.iter().map(|c| c.trim_end().to_string()).collect();
+    let mut kinds: Vec<&'static str> = kinds.to_vec();
+    if out == inp {
+        return Ok(());
+    }
+    // a listed finding (comments inside an empty list / record are dropped) is stepped over, so
+    // that the other comments of the program are still compared
+    let sig = format!("{}:lost:inside-empty-collection", driver);
+    let mut i = 0;
+    while i < inp.len() {
+        if kinds.get(i).copied() == Some("inside-empty-collection") && !out.contains(&inp[i]) {
+            let (c, src) = (inp[i].clone(), source.to_string());
+            if ctx.step_over_known("comments", &sig, || (format!("comment {:?} inside an empty collection is missing after formatting\n--- source:\n{}", c, src), serde_json::Value::String(src.clone()))) {
+                inp.remove(i);
+                kinds.remove(i);
+                continue;
+            }
+        }
+        i += 1;
+    }
     if out == inp {
         return Ok(());
     }
@@ -75,11 +94,11 @@ impl Check for Comments {
             ctx.label(k);
         }
         if let Some(out) = fmt::format_wasm(&r.text, c.width) {
-            compare("wasm", &r.comments, &r.comment_kinds, &out, &r.text)?;
+            compare(ctx, "wasm", &r.comments, &r.comment_kinds, &out, &r.text)?;
         }
         if c.cli {
             match fmt::format_cli(ctx, &r.text) {
-                Ok(out) => compare("cli", &r.comments, &r.comment_kinds, &out, &r.text)?,
+                Ok(out) => compare(ctx, "cli", &r.comments, &r.comment_kinds, &out, &r.text)?,
                 Err(e) => fail!("cli:format-failed", "{}\n{}", e, r.text),
             }
         }
@@ -99,7 +118,7 @@ impl Check for Comments {
             }
             let out = blots_core::formatter::format_expr(&exprs[0], fmt::width_opt(c.width));
             ctx.extra_evals(1);
-            compare("library", &rs.comments, &rs.comment_kinds, &out, &rs.text)?;
+            compare(ctx, "library", &rs.comments, &rs.comment_kinds, &out, &rs.text)?;
         }
         Ok(())
     }
